@@ -113,8 +113,11 @@ func genC08(t *rapid.T) *C08Case {
 			continue
 		}
 		kind := "send"
-		if rapid.IntRange(0, 9).Draw(t, "evKind") == 0 {
+		switch rapid.IntRange(0, 9).Draw(t, "evKind") {
+		case 0:
 			kind = "testreq"
+		case 1:
+			kind = "resend" // retransmissions are outbound messages too: they postpone the heartbeat
 		}
 		evs = append(evs, ev{at, kind})
 		if kind == "send" && rapid.IntRange(0, 5).Draw(t, "burst") == 0 {
@@ -131,12 +134,15 @@ func genC08(t *rapid.T) *C08Case {
 	}
 	sort.SliceStable(evs, func(i, j int) bool { return evs[i].at < evs[j].at })
 	for i, e := range evs {
-		if e.kind == "testreq" && tl.silentTo > 0 && e.at >= tl.silentFrom-N && e.at < tl.silentTo {
+		if e.kind != "send" && tl.silentTo > 0 && e.at >= tl.silentFrom-N && e.at < tl.silentTo {
 			continue // the peer is silent then
 		}
 		tl.advanceTo(e.at)
 		if e.kind == "send" {
 			tl.steps = append(tl.steps, rig.Step{Op: "send", ID: fmt.Sprintf("app%d", i)})
+		} else if e.kind == "resend" {
+			tl.steps = append(tl.steps, rig.Step{Op: "in", In: g.resend(1, rapid.SampledFrom([]int{0, 1, 2}).Draw(t, "resendEnd"))})
+			tl.lastIn = tl.now
 		} else {
 			tl.steps = append(tl.steps, rig.Step{Op: "in", In: g.testRequest(fmt.Sprintf("q%d", i))})
 			tl.lastIn = tl.now
@@ -161,7 +167,8 @@ func checkC08(c *C08Case, rec *evid.Rec) (vs []pbt.Violation) {
 	// the instant the session became logged on
 	var t0 time.Duration = -1
 	var outs []rig.Emitted
-	solicited := map[int]bool{} // index in outs of Heartbeats that answer a TestRequest
+	solicited := map[int]bool{} // index in outs of Heartbeats that answer a TestRequest or are retransmissions
+	maxSeq := 0
 	nearDeadline, idle := false, false
 	var end time.Duration
 	for i := range c.Steps {
@@ -172,12 +179,22 @@ func checkC08(c *C08Case, rec *evid.Rec) (vs []pbt.Violation) {
 				t0 = res.At
 				// messages of the logon step itself count from t0
 				outs = append(outs, res.Out...)
+				for _, o := range res.Out {
+					if n := atoi(o.Seq); n > maxSeq {
+						maxSeq = n
+					}
+				}
 			}
 			continue
 		}
 		for _, o := range res.Out {
 			if _, has := o.Get(rig.TagTestReqID); has && o.Type == rig.THeartbeat {
 				solicited[len(outs)] = true
+			}
+			if n := atoi(o.Seq); n <= maxSeq {
+				solicited[len(outs)] = true // a retransmission (asked for by the peer), whatever its type
+			} else {
+				maxSeq = n
 			}
 			outs = append(outs, o)
 		}
